@@ -852,7 +852,10 @@ class Interp:
                     if base == 'Shr':
                         h, q, l = self.decompose_bits(w, x, n, width, width)
                         return ('int', q)
-                    # Shl: high bits are shifted out
+                    # Shl: high bits are shifted out - unless there are none (`u16::from(byte) << 8`)
+                    xb = w.store.quick_bounds(x)
+                    if 0 <= n < width and xb[0] is not None and xb[1] is not None and xb[0] >= 0 and xb[1] < 2 ** (width - n):
+                        return ('int', x.scale(2 ** n))
                     h, q, l = self.decompose_bits(w, x, 0, width - n, width)
                     return ('int', q.scale(2 ** n))
                 return self.fresh_int(w, aty, base.lower(), defn=(base.lower(), x, y))
@@ -870,6 +873,20 @@ class Interp:
                             olo = w.store.quick_bounds(oth)[0]
                             if ohi is not None and olo is not None and olo >= 0 and ohi < lowbit:
                                 return ('int', cst + oth)
+                if base == 'BitOr' and lo >= 0:
+                    # `(hi << 8) | lo`: one operand is a multiple of 2^s, the other stays below 2^s: disjoint bits, x | y == x + y
+                    for (p_, q_) in ((x, y), (y, x)):
+                        if not p_.terms:
+                            continue
+                        g_ = abs(p_.const)
+                        for _, k_ in p_.terms:
+                            g_ |= abs(k_)
+                        low_ = g_ & -g_                      # largest power of two dividing every coefficient
+                        qb = w.store.quick_bounds(q_)
+                        pb = w.store.quick_bounds(p_)
+                        if low_ > 1 and qb[0] is not None and qb[1] is not None and qb[0] >= 0 and qb[1] < low_ and pb[0] is not None and pb[0] >= 0:
+                            word = self._as_be_word(w, p_ + q_)
+                            return ('int', word if word is not None else p_ + q_)
                 res = self.fresh_int(w, aty, base.lower(), defn=(base.lower(), x, y))
                 if lo >= 0:
                     # both operands below 2^k  =>  x|y , x^y below 2^k
@@ -1348,6 +1365,29 @@ class Interp:
         if len(roots) != 1 or roots[0] in w.written:
             return None
         return ('bytes_of', Loc(roots[0]), infos[0][2])
+
+    def _as_be_word(self, w, r):
+        """r == 256^(n-1)·s[k] + .. + s[k+n-1] over consecutive cells of one unwritten object: the big-endian word that
+        `from_be_bytes(s[k..k+n])` denotes (same atom), else None"""
+        if r.const != 0 or len(r.terms) not in (2, 4, 8):
+            return None
+        n = len(r.terms)
+        ts = sorted(r.terms, key=lambda t: -t[1])
+        if [k for _, k in ts] != [256 ** (n - 1 - i) for i in range(n)]:
+            return None
+        infos = [ATOMS.info(a).defn for a, _ in ts]
+        if not all(d and d[0] == 'elem' and d[1] == infos[0][1] for d in infos):
+            return None
+        if not all(infos[i][2] == infos[0][2] + i for i in range(n)):
+            return None
+        tag = infos[0][1]
+        roots = [rt for rt, v in w.mem.items() if v[0] == 'seq' and v[4] == tag]
+        if len(roots) != 1 or roots[0] in w.written:
+            return None
+        key = ('be', Loc(roots[0]), infos[0][2], n)
+        at = ATOMS.fresh(f"be{n*8}({w.name_of(roots[0])}[{infos[0][2].pretty()}..])", 0, 256 ** n - 1, defn=key, key=key)
+        w.store = w.store.add_eq(Lin.atom(at), r)
+        return Lin.atom(at)
 
     def _multi_enum(self, v):
         return v[0] == 'enum' and len(v[1]) > 1
